@@ -504,7 +504,39 @@ func c15Case(c *core.Ctx, idx int) {
 		}
 		if r.IntN(3) == 0 {
 			// an abandoned document: Reset may come at any point of a call sequence
-			switch r.IntN(5) {
+			which := r.IntN(5)
+			if idx%11 == 4 && d <= 1 {
+				which = 5
+			}
+			switch which {
+			case 5:
+				// abandoned very deep down, beyond any limit an outputter may set itself (whether it goes on,
+				// panics or starts ignoring calls there is its business; the next document is not)
+				depth := []int{600, 1000, 2000}[r.IntN(3)]
+				if idx%89 == 3 && d == 1 {
+					depth = []int{10001, 10002, 12000}[r.IntN(3)] // (the indentation alone is 100 MB by then)
+				}
+				core.Guard(func() {
+					for i := 0; i < depth; i++ {
+						if i%2 == 0 {
+							reused.StartArray()
+						} else {
+							reused.StartObject()
+							reused.NameField("d")
+						}
+					}
+					if r.IntN(2) == 0 {
+						for i := depth - 1; i >= 0; i-- {
+							if i%2 == 0 {
+								reused.EndArray()
+							} else {
+								reused.EndObject()
+							}
+						}
+						reused.Done()
+					}
+				})
+				rec.Count("abandoned_very_deep_documents", 1)
 			case 4:
 				// abandoned after a lot of output (an outputter may decide not to keep a big buffer), with
 				// containers still open
